@@ -8,7 +8,8 @@ packed image must be, as a direct function of
 
 Nothing here mentions a queue, worker threads, the backlog or a schedule.  C02 proves that the implementation
 model (`Sqfs/Model/BlockWriter.lean`, `FragDedup.lean`, block processor) computes exactly this for every
-`(jobs, backlog, schedule)`; C08 and C17 state their theorems against it.
+`(jobs, backlog, schedule)` (`Sqfs.C02.run_eq_specPack`, `Sqfs.C02.threaded_eq_specPack` in `Sqfs/Props/C02.lean`); C08
+and C17 state their theorems against it, and `Sqfs.C02.threaded_directives` / `threaded_readback` carry them over.
 
 Source of every clause (/repo working tree, squashfs-tools-ng 1.2.0 + fixes):
   frontend.c   `sqfs_block_processor_append` / `_end_file`      → block decomposition   (`fullBlocks`, `packFile`)
